@@ -8,6 +8,9 @@ from props.c04 import TRUST
 
 
 def run(ses):
+    from pyvc import frame as _frame
+
+    _frame.purity_obligation(ses)
     records.check_units(ses, ("image10s", "image11s"), ["table", "frame"])
     from props import analyses
 
